@@ -404,7 +404,7 @@ def _s5_declared_order(program, res):
     d2 = depsmod.Deps(g2, ev.params())
     laid_out = False
     for st in ast.walk(ev.node):
-        if isinstance(st, ast.Assign) and isinstance(st.value, (ast.Subscript, ast.Call)):
+        if isinstance(st, (ast.Assign, ast.Return)) and isinstance(st.value, (ast.Subscript, ast.Call)):
             v = st.value
             sel = v.slice if isinstance(v, ast.Subscript) else (v.args[0] if (isinstance(v.func, ast.Attribute) and v.func.attr in ("reindex", "select", "loc") and v.args) else
                                                                 next((k.value for k in getattr(v, "keywords", []) if k.arg == "columns"), None))
@@ -413,6 +413,9 @@ def _s5_declared_order(program, res):
             roots = d2.roots_at(g2.containing_node(st), sel)
             if any(r.startswith(f"{op_param}.column_names") for r in roots):
                 # and this value reaches a return
+                if isinstance(st, ast.Return):
+                    laid_out = True
+                    continue
                 tgt = unparse(st.targets[0])
                 if any(isinstance(r.stmt.value, ast.Name) and r.stmt.value.id == tgt for r in g2.returns()):
                     laid_out = True
